@@ -8,6 +8,7 @@ def S2_N11_commit(ctx):
     ps = feasible(f.paths())
     bad = []
     rows = collections.Counter()
+    n_expected = {True: 0, False: 0}
     for p in ps:
         ret = [e for e in p.events if e.kind == 'ret'][0].d['value']
         dis = [a for a in p.events if a.kind == 'atom' and is_field(strip(a.d['term']), 'OrderedCommitter.disable_nonce_check')]
@@ -48,16 +49,28 @@ def S2_N11_commit(ctx):
                 if not ok or commits or pushes:
                     bad.append((p, 'database error on the nonce read is not returned as Err{txid, Database(e)} before any commit'))
                 continue
-            # expected nonce term
-            exp = [e for e in p.events if e.kind == 'call' and callee_matches(e.d['callee'], ('Option::map_or', 'Option::map_or_else', 'Option::unwrap_or')) and mentions(e.d['args'][0], rd.d['result'])]
-            if not exp or exp[0].d['args'][1] != ('const', '0_u64'):
-                bad.append((p, 'expected nonce is not `info.map_or(0, |i| i.nonce)`'))
+            # expected nonce: the read account's nonce, 0 for an absent account (however it is spelled:
+            # map_or(0, |i| i.nonce), match, if let ...)
+            info_f = [of for of in (option_fact(a) for a in p.events) if of and of[1] in ('Some', 'None') and mentions(of[0], rd.d['result'])]
+            present = info_f[-1][1] == 'Some' if info_f else None
+            rdr = strip(rd.d['result'])
+
+            def expected_ok(l):
+                if present is True:
+                    return is_field(l, 'AccountInfo.nonce') and mentions(l, rdr)
+                if present is False:
+                    return l == ('const', '0_u64')
+                return False
+            cmp_all = [a for a in p.events if a.kind == 'atom' and a.d['term'][0] == 'discr' and a.d['term'][1][0] == 'call' and a.d['term'][1][1].endswith('::cmp')
+                       and is_field(strip(a.d['term'][1][2][0]), 'TxEnv.nonce')]
+            cmpa = [a for a in cmp_all if expected_ok(strip(a.d['term'][1][2][1]))]
+            if present is None or len(cmpa) != len(cmp_all):
+                bad.append((p, 'expected nonce is not the committed account nonce (0 when the account is absent)'))
                 continue
-            expt = strip(exp[0].d['result'])
-            cmpa = [a for a in p.events if a.kind == 'atom' and a.d['term'][0] == 'discr' and a.d['term'][1][0] == 'call' and a.d['term'][1][1].endswith('::cmp')
-                    and is_field(strip(a.d['term'][1][2][0]), 'TxEnv.nonce') and strip(a.d['term'][1][2][1]) == expt]
+            if cmpa:
+                n_expected[present] += 1
             both_max = holds_rel(p, len(p.events), lambda op, l, r: op == 'Eq' and is_field(l, 'TxEnv.nonce') and r[0] == 'const' and 'MAX' in r[1]) and \
-                holds_rel(p, len(p.events), lambda op, l, r: op == 'Eq' and l == expt and r[0] == 'const' and 'MAX' in r[1])
+                holds_rel(p, len(p.events), lambda op, l, r: op == 'Eq' and expected_ok(l) and r[0] == 'const' and 'MAX' in r[1])
             if kind == 'Committed':
                 if both_max or not cmpa or cmpa[0].d['outcome'] != 'Equal':
                     bad.append((p, 'committed without tx.nonce == committed nonce (or with the MAX/MAX overflow case)'))
@@ -91,15 +104,8 @@ def S2_N11_commit(ctx):
     ctx.ob('N11', f, 'commit-and-push-exactly-once', not [w for _, w in bad if 'Committed path' in w or 'commits state' in w or 'returned boundary' in w or 'speculative' in w],
            '; '.join(sorted(set(w for _, w in bad if 'ommit' in w))[:3]), site=f.loc(f.b['lo']),
            what='the Committed outcome applies the speculative state and pushes its result exactly once; every other exit applies neither')
-    # closure of map_or must read `.nonce`
-    cl = [ctx.fn(c) for c in ctx.facts.closures_of(f.name)]
-    okc = False
-    for cf in cl:
-        for q in feasible(cf.paths()):
-            r = [e for e in q.events if e.kind == 'ret'][0].d['value']
-            if is_field(r, 'AccountInfo.nonce'):
-                okc = True
-    ctx.ob('S2', f, 'expected-nonce-is-account-nonce', okc, '', site=f.loc(f.b['lo']))
+    ctx.ob('S2', f, 'expected-nonce-is-account-nonce', n_expected[True] >= 1 and n_expected[False] >= 1,
+           f'paths comparing against the account nonce={n_expected[True]}, against 0 for an absent account={n_expected[False]}', site=f.loc(f.b['lo']))
 
 
 def B4_reward_fold(ctx):
@@ -267,42 +273,39 @@ def S5_sequential_suffix(ctx):
     # the replay closure: commit only on Ok
     rf_ = ctx.method('scheduler::Scheduler<DB>', 'replay_uncommitted_suffix')
     cls = ctx.facts.closures_under(rf_.name)
-    found = False
-    bad = []
+    # closures handed to std combinators are analysed inline in their parent's paths
+    inlined = set()
+    per = {}
     for c in cls:
         cf = ctx.fn(c)
-        for p in feasible(cf.paths()):
-            cm = [e for e in p.events if e.kind == 'call' and norm_callee(e.d['callee']).endswith('DatabaseCommit::commit') or (e.kind == 'call' and e.d['callee'].endswith('::commit') and 'DatabaseCommit' in e.d['callee'])]
-            if not cm:
-                continue
-            found = True
-            # closure passed to Result::map: runs only on Ok by construction
-        # commit inside the map-closure of `output.map(|output| ...)`
-    mapc = []
-    for c in cls:
-        cf = ctx.fn(c)
-        for p in feasible(cf.paths()):
+        per[c['fn']] = feasible(cf.paths())
+        for p in per[c['fn']]:
             for e in p.events:
-                if e.kind == 'call' and norm_callee(e.d['callee']).endswith('Result::map'):
-                    for s in subterms(e.d['args'][1]):
-                        if s[0] == 'closure':
-                            mapc.append(s[1])
+                if e.d.get('inlined_from'):
+                    inlined.add(e.d['inlined_from'])
+    bad = []
+    ok_commits = 0
+    is_commit = lambda e: e.kind == 'call' and e.d['callee'].endswith('::commit') and ('DatabaseCommit' in e.d['callee'] or 'ParallelState' in e.d['callee'])
     for c in cls:
-        if c['fn'] in set(mapc):
+        if c['fn'] in inlined:
             continue
         cf = ctx.fn(c)
-        for p in feasible(cf.paths()):
-            for e in p.events:
-                if e.kind == 'call' and (e.d['callee'].endswith('::commit')) and ('DatabaseCommit' in e.d['callee'] or 'ParallelState' in e.d['callee']):
+        for p in per[c['fn']]:
+            runs = [e for e in p.events if is_call(e, 'GrevmHandler::run') or (e.kind == 'call' and norm_callee(e.d['callee']).endswith('GrevmHandler::run'))]
+            for i, e in enumerate(p.events):
+                if not is_commit(e):
+                    continue
+                decided_ok = False
+                for a in p.events[:i]:
+                    of = option_fact(a)
+                    if of and of[1] == 'Ok' and runs and strip(of[0]) == strip(runs[0].d['result']):
+                        decided_ok = True
+                if decided_ok:
+                    ok_commits += 1
+                else:
                     bad.append((cf, e))
-    ok_in_map = False
-    for name in set(mapc):
-        mf = ctx.fn(ctx.facts.by[name])
-        for p in feasible(mf.paths()):
-            if [e for e in p.events if e.kind == 'call' and e.d['callee'].endswith('::commit')]:
-                ok_in_map = True
-    ctx.ob('S5', rf_, 'state-committed-only-for-executed-transactions', ok_in_map and not bad,
-           f'commit inside the Ok-only map closure={ok_in_map}; unconditional commits={[site(f2, e) for f2, e in bad][:2]}', site=rf_.loc(rf_.b['lo']),
+    ctx.ob('S5', rf_, 'state-committed-only-for-executed-transactions', ok_commits >= 1 and not bad,
+           f'commits control-dependent on the handler result being Ok={ok_commits}; other commits={[site(f2, e) for f2, e in bad][:2]}', site=rf_.loc(rf_.b['lo']),
            what='a skipped (invalid) or failed transaction must leave the state untouched: db.commit(state) is control-dependent on the Ok result')
     # E4: results.extend(outcomes) dominates the error return
     bad = []
@@ -314,7 +317,15 @@ def S5_sequential_suffix(ctx):
         n += 1
         ext = [e for e in p.events if e.kind == 'call' and e.d['callee'].endswith('::extend') and mentions_field(e.d['args'][0], 'Scheduler.results')]
         ret = [e for e in p.events if e.kind == 'ret'][0].d['value']
-        if len(ext) != 1 or not mentions(ext[0].d['args'][1], ess[0].d['result']) or not mentions(ret, ess[0].d['result']):
+        # the replay's error decides the return value: Some(e) ⇒ Err(e), None ⇒ Ok
+        facts_ = [of for of in (option_fact(a) for a in p.events) if of and mentions(of[0], ess[0].d['result']) and mentions_field(of[0], 'SequentialReplayOutput.error')]
+        if facts_ and facts_[-1][1] == 'Some':
+            ret_ok = ret[0] == 'agg' and ret[2] == 'Err' and mentions(ret, ess[0].d['result'])
+        elif facts_ and facts_[-1][1] == 'None':
+            ret_ok = ret[0] == 'agg' and ret[2] == 'Ok'
+        else:
+            ret_ok = mentions(ret, ess[0].d['result'])
+        if len(ext) != 1 or not mentions(ext[0].d['args'][1], ess[0].d['result']) or not ret_ok:
             bad.append(p)
         if ess and strip(ess[0].d['args'][1]) != strip(('call', 'scheduler::ordered_commit::CommittedPrefixEnd::index', (('arg', 2),))):
             bad.append(p)
@@ -348,6 +359,7 @@ def E2_post_execute(ctx):
     f = ctx.method('scheduler::Scheduler<DB>', 'post_execute')
     bad = []
     rows = set()
+    n_recorded = [0]
     for p in feasible(f.paths()):
         ret = [e for e in p.events if e.kind == 'ret'][0].d['value']
         ab = [a for a in p.events if a.kind == 'atom' and a.d['term'][0] == 'call' and callee_matches(a.d['term'][1], 'is_aborted')]
@@ -365,14 +377,16 @@ def E2_post_execute(ctx):
         if replay and ret[2][1] != ('arg', 2):
             bad.append((p, 'replay does not start at the committed boundary handed in'))
         if 'FatalEvmError' in outs:
-            got = [a for a in p.events if a.kind == 'atom' and a.d['term'][0] == 'discr' and has_call(a.d['term'][1], '::and_then')]
-            if got and got[0].d['outcome'] == 'Some':
+            is_err = ret[0] == 'agg' and ret[2] == 'Err'
+            if is_err:
                 rows.add('Fatal:err')
-                ok = ret[0] == 'agg' and ret[2] == 'Err' and ret[3][0][0] == 'agg' and ret[3][0][1].endswith('GrevmError')
+                ok = ret[3][0][0] == 'agg' and ret[3][0][1].endswith('GrevmError')
                 if ok:
                     gf = dict(zip(ret[3][0][4].split(','), ret[3][0][3]))
-                    ok = mentions_field(gf['txid'], 'Scheduler.abort_reason') and mentions_field(gf['error'], 'Scheduler.tx_results') and mentions(gf['error'], strip(gf['txid'])) or \
-                        (mentions_field(gf['txid'], 'Scheduler.abort_reason') and mentions_field(gf['error'], 'Scheduler.tx_results'))
+                    ok = mentions_field(gf['txid'], 'Scheduler.abort_reason') and mentions_field(gf['error'], 'Scheduler.tx_results')
+                    # the error is the Err side of that transaction's recorded execute_result
+                    if ok and mentions_field(gf['error'], 'TransactionResult.execute_result') and has_call(gf['error'], 'Result::err'):
+                        n_recorded[0] += 1
                 if not ok:
                     bad.append((p, 'fatal abort does not return GrevmError{txid from the abort reason, that tx\'s recorded error}'))
             else:
@@ -400,16 +414,7 @@ def E2_post_execute(ctx):
     need = {'not-aborted', 'Fatal:err', 'Fatal:lost', 'CommitError', 'ParallelError', 'FallbackSequential', 'None'}
     ctx.ob('E2', f, 'abort-reason-mapping', rows == need and not bad, '; '.join(sorted(set(w for _, w in bad))[:3]) + f' rows={sorted(rows)}', site=f.loc(f.b['lo']),
            what='Fatal ⇒ that transaction\'s recorded error with its txid (else replay); CommitError ⇒ that error; ParallelError / FallbackSequential / no reason ⇒ sequential replay from the committed boundary; not aborted ⇒ Ok')
-    # the and_then closure: execute_result.as_ref().err().cloned()
-    okc = False
-    for c in ctx.facts.closures_under(f.name):
-        if True:
-            cf = ctx.fn(c)
-            for p in feasible(cf.paths()):
-                r = [e for e in p.events if e.kind == 'ret'][0].d['value']
-                if mentions_field(r, 'TransactionResult.execute_result') and has_call(r, 'Result::err'):
-                    okc = True
-    ctx.ob('E2', f, 'fatal-error-read-from-the-recorded-result', okc, '', site=f.loc(f.b['lo']))
+    ctx.ob('E2', f, 'fatal-error-read-from-the-recorded-result', n_recorded[0] >= 1, 'no Fatal path returns the Err side of TransactionResult.execute_result of the aborting transaction', site=f.loc(f.b['lo']))
 
 
 def S4_E1_error_arm(ctx):
